@@ -96,6 +96,12 @@ pub enum Op {
     /// an allocation request of the whole heap size (Los): cannot be satisfied, so MMTk collects
     /// until the collection is an emergency collection and then reports out-of-memory
     Emergency,
+    /// `get_finalizers_for(roots[slot])`: must return exactly the outstanding registrations of
+    /// that object (each once) and un-register them
+    GetFinFor { slot: u8 },
+    /// `get_all_finalizers()`: must return every outstanding registration (ready or not) and
+    /// leave the tables empty; the first returned object that no root holds is re-rooted
+    GetAllFin,
 }
 
 impl Op {
@@ -109,6 +115,8 @@ impl Op {
             Op::Gc { full } => json!({"op": "gc", "full": full}),
             Op::Pop => json!({"op": "pop"}),
             Op::Emergency => json!({"op": "emergency"}),
+            Op::GetFinFor { slot } => json!({"op": "getfinalizersfor", "slot": slot}),
+            Op::GetAllFin => json!({"op": "getallfinalizers"}),
         }
     }
     fn from_json(v: &Value) -> Op {
@@ -122,6 +130,8 @@ impl Op {
             "gc" => Op::Gc { full: v["full"].as_bool().unwrap_or(true) },
             "pop" => Op::Pop,
             "emergency" => Op::Emergency,
+            "getfinalizersfor" => Op::GetFinFor { slot: u("slot") },
+            "getallfinalizers" => Op::GetAllFin,
             other => machinery_failure(&format!("unknown op {}", other)),
         }
     }
@@ -215,7 +225,7 @@ impl Abs {
             }
             Op::AddFin { .. } => self.fins = true,
             Op::Drop { slot } => self.occ[slot as usize] = false,
-            Op::Write { .. } | Op::Gc { .. } | Op::Pop | Op::Emergency => {}
+            Op::Write { .. } | Op::Gc { .. } | Op::Pop | Op::Emergency | Op::GetFinFor { .. } | Op::GetAllFin => {}
         }
     }
 }
@@ -267,6 +277,125 @@ fn enumerate(plan: &str, depth: usize) -> Vec<Vec<Op>> {
     out
 }
 
+/// Abstract pre-state of the `fintable` variant (finalizer-table management: no reference
+/// objects, no writes; `slots` root slots).
+#[derive(Clone, Copy, Default)]
+struct FtAbs {
+    occ: [bool; SLOTS],
+    /// outstanding registrations of the object in each slot
+    regs: [u8; SLOTS],
+    /// outstanding registrations of dropped objects
+    lost: u8,
+    /// a collection happened while `lost > 0` (a pop may return something)
+    pop_ok: bool,
+}
+
+impl FtAbs {
+    fn enabled(&self, plan: &str, slots: usize) -> Vec<Op> {
+        let mut v = vec![];
+        if self.occ[..slots].iter().any(|o| !o) {
+            v.push(Op::Alloc);
+        }
+        for s in 0..slots {
+            if self.occ[s] && self.regs[s] < 2 {
+                v.push(Op::AddFin { slot: s as u8 });
+            }
+        }
+        for s in 0..slots {
+            if self.occ[s] {
+                v.push(Op::Drop { slot: s as u8 });
+            }
+        }
+        if is_gen(plan) {
+            v.push(Op::Gc { full: false });
+        }
+        v.push(Op::Gc { full: true });
+        for s in 0..slots {
+            if self.occ[s] && self.regs[s] > 0 {
+                v.push(Op::GetFinFor { slot: s as u8 });
+            }
+        }
+        if self.regs.iter().map(|r| *r as u32).sum::<u32>() + self.lost as u32 > 0 {
+            v.push(Op::GetAllFin);
+        }
+        if self.lost > 0 && self.pop_ok {
+            v.push(Op::Pop);
+        }
+        v
+    }
+    fn apply(&mut self, op: &Op, slots: usize) {
+        match *op {
+            Op::Alloc => {
+                let s = self.occ[..slots].iter().position(|o| !o).unwrap();
+                self.occ[s] = true;
+                self.regs[s] = 0;
+            }
+            Op::AddFin { slot } => self.regs[slot as usize] += 1,
+            Op::Drop { slot } => {
+                self.lost += self.regs[slot as usize];
+                self.regs[slot as usize] = 0;
+                self.occ[slot as usize] = false;
+            }
+            Op::Gc { .. } => self.pop_ok = self.lost > 0,
+            Op::GetFinFor { slot } => self.regs[slot as usize] = 0,
+            Op::GetAllFin => {
+                self.regs = [0; SLOTS];
+                self.lost = 0;
+                self.pop_ok = false;
+            }
+            Op::Pop => {
+                self.lost = 0;
+                self.pop_ok = false;
+            }
+            _ => {}
+        }
+    }
+}
+
+/// `fintable` variant: all programs of length 1..=depth over {alloc, addfin (at most 2 per
+/// object), drop, GC(normal) [generational], GC(exhaustive), get_finalizers_for(root with a
+/// registration), get_all_finalizers (some registration outstanding), pop (after a collection
+/// with a registration of a dropped object outstanding)} that contain a get_finalizers_for or a
+/// get_all_finalizers and do not end in an exhaustive GC.
+fn enumerate_fintable(plan: &str, depth: usize, slots: usize) -> Vec<Vec<Op>> {
+    let mut out = vec![];
+    let mut level: Vec<(Vec<Op>, FtAbs)> = vec![(vec![], FtAbs::default())];
+    for _ in 0..depth {
+        let mut next = vec![];
+        for (p, abs) in &level {
+            for op in abs.enabled(plan, slots) {
+                let mut p2 = p.clone();
+                p2.push(op);
+                let mut a2 = *abs;
+                a2.apply(&op, slots);
+                next.push((p2, a2));
+            }
+        }
+        for (p, _) in &next {
+            if matches!(p.last(), Some(Op::Gc { full: true })) {
+                continue;
+            }
+            if p.iter().any(|o| matches!(o, Op::GetFinFor { .. } | Op::GetAllFin)) {
+                out.push(p.clone());
+            }
+        }
+        level = next;
+    }
+    out
+}
+
+fn is_fintable(variant: &str) -> bool {
+    variant.starts_with("fintable")
+}
+
+fn programs(plan: &str, variant: &str, tier: Tier, depth: usize) -> Vec<Vec<Op>> {
+    if is_fintable(variant) {
+        enumerate_fintable(plan, depth, tier.pick(2, 3))
+    } else {
+        enumerate(plan, depth)
+    }
+}
+
 // ---------------------------------------------------------------------------------------------
 // model
 
@@ -285,6 +414,9 @@ struct RefReg {
 struct FinReg {
     id: u64,
     ready: bool,
+    /// the registration has been through a collection (it lies below the finalizable
+    /// processor's `nursery_index` unless a removal reset the index)
+    scanned: bool,
 }
 
 #[derive(Clone, Copy, Debug, PartialEq, Eq)]
@@ -328,6 +460,16 @@ struct Facts {
     inexact_gcs: u64,
     emergency_batches: u64,
     enqueue_events: u64,
+    /// get_finalizers_for / get_all_finalizers calls, registrations they returned
+    removal_calls: u64,
+    removed: u64,
+    /// a removal took a registration that had been through a collection while a registration
+    /// made since that collection stayed in the table (entries shift below `nursery_index`) ...
+    removal_hazards: u64,
+    /// ... and the next collection was a (user-requested, single) GC(normal) of a generational plan
+    hazard_then_nursery_gc: u64,
+    /// young unreachable finalizable objects that a GC(normal) had to make ready (and did)
+    young_ready_in_normal_gc: u64,
     /// a soft reference was reachable only through another soft reference's referent
     order_dependent: bool,
     /// tolerated (see NOTES): a soft/weak reference object reachable only through a finalizable
@@ -348,6 +490,8 @@ struct Model {
     /// word ("ref") after the last collection: failures of the graph walk on them are C06's
     aux: HashMap<u64, &'static str>,
     fin_buf: *mut [usize; FIN_BUF],
+    /// see `Facts::removal_hazards`: set by a removal, consumed by the next collection
+    hazard_pending: bool,
     facts: Facts,
     total: Facts,
 }
@@ -409,6 +553,7 @@ impl Model {
             untracked: HashSet::new(),
             aux: HashMap::new(),
             fin_buf: Box::into_raw(Box::new([0usize; FIN_BUF])),
+            hazard_pending: false,
             facts: Facts::default(),
             total: Facts::default(),
         }
@@ -444,7 +589,7 @@ impl Model {
         let r0 = closure(w, strong_roots(w));
         let soft_regs: Vec<(u64, u64)> = self.refs.iter().filter(|r| r.kind == Kind::Soft && !r.floating).filter_map(|r| self.referent_of(w, r.id).map(|t| (r.id, t))).collect();
         let r1min = if mode == Mode::ExactEmergency || !retention { r0.clone() } else { closure(w, r0.iter().cloned().chain(soft_regs.iter().filter(|(s, _)| r0.contains(s)).map(|(_, t)| *t))) };
-        {
+        let r1max_all = {
             // soft references discovered only through retained referents: whether *their*
             // referents are retained depends on the table iteration order -> not decided here.
             // (Checked for every collection in which some non-emergency collection retains: a
@@ -467,7 +612,8 @@ impl Model {
                 // allowed) but kept out of the coverage counters so that they stay reproducible
                 self.facts.order_dependent = true;
             }
-        }
+            r1max
+        };
         let exact = mode != Mode::Inexact;
         let r1 = &r1min;
         let fin_ready_pred: Vec<bool> = self.fins.iter().map(|f| !r1.contains(&f.id)).collect();
@@ -860,6 +1006,34 @@ impl Model {
                     return fail("final:ready_but_reachable", format!("object id {} is reachable but the collection made it ready for finalization (get_finalized_object would return it)", x));
                 }
             }
+            // LIVENESS for young objects in a single user-requested GC(normal) of a generational
+            // plan: an object allocated since the last collection lives in the nursery, which
+            // every collection collects; if nothing that can be alive reaches it (roots, soft
+            // retention, any object that has survived a collection -- mature garbage included, it
+            // may be in the remembered set) it is "not alive" after this GC, so its registrations
+            // must be ready ("After each GC, if any registered object is not alive,
+            // [get_finalized_object] will return one of the objects")
+            if gen && n == 1 && !emergency_now && matches!(pending, Pending::Gc { .. }) {
+                let maybe_live = closure(w, r1max_all.iter().cloned().chain(w.shadow.objs.values().filter(|o| o.age > 0).map(|o| o.id)));
+                let mut left = ready_ids.clone();
+                for f in &self.fins {
+                    let young = w.shadow.objs.get(&f.id).map(|o| o.age == 0).unwrap_or(false);
+                    if young && !maybe_live.contains(&f.id) {
+                        match left.iter().position(|x| *x == f.id) {
+                            Some(i) => {
+                                left.remove(i);
+                                self.facts.young_ready_in_normal_gc += 1;
+                            }
+                            None => {
+                                return fail(
+                                    "final:not_ready:young",
+                                    format!("finalizable object id {} was allocated since the last collection and is not reachable (not from the roots, not through soft references, not from any older object), but the collection did not make it ready for finalization: it is neither kept alive nor will get_finalized_object return it (ready: {:?}, candidates: {:?})", f.id, ready_ids, entries.iter().filter(|e| !e.2).map(|e| e.1).collect::<Vec<_>>()),
+                                );
+                            }
+                        }
+                    }
+                }
+            }
             // adopt what the collection decided
             let mut left = ready_ids.clone();
             for f in self.fins.iter_mut() {
@@ -873,6 +1047,12 @@ impl Model {
                     }
                 }
             }
+        }
+        for f in self.fins.iter_mut() {
+            f.scanned = true;
+        }
+        if std::mem::replace(&mut self.hazard_pending, false) && gen && n == 1 && !emergency_now && pending == (Pending::Gc { full: false }) {
+            self.facts.hazard_then_nursery_gc += 1;
         }
         if exact {
             self.facts.exact_gcs += 1;
@@ -949,6 +1129,62 @@ impl Model {
         Ok(n)
     }
 
+    /// `get_finalizers_for(object)` / `get_all_finalizers()`: the result must be exactly the
+    /// outstanding registrations (of that object / all), each once, at the objects' current
+    /// addresses; they are un-registered.
+    fn remove(&mut self, w: &mut World, only: Option<u64>) -> Result<(), Fail> {
+        let (api, got): (&str, Vec<ObjectReference>) = match only {
+            Some(id) => ("get_finalizers_for", mmtk::memory_manager::get_finalizers_for(w.mmtk, w.obj_ref(id))),
+            None => ("get_all_finalizers", mmtk::memory_manager::get_all_finalizers(w.mmtk)),
+        };
+        self.facts.removal_calls += 1;
+        let mut expect: Vec<u64> = self.fins.iter().filter(|f| only.map(|id| f.id == id).unwrap_or(true)).map(|f| f.id).collect();
+        let mut got_ids: Vec<u64> = vec![];
+        for o in &got {
+            let a = o.to_raw_address().as_usize();
+            let mut ids: Vec<u64> = w.shadow.objs.values().filter(|so| so.addr == a).map(|so| so.id).collect();
+            ids.sort();
+            // (an object that died since the last collection may share the address range of
+            // nothing else: addresses are unique among the objects the shadow heap still knows)
+            match ids.iter().find(|id| expect.contains(id)).or(ids.first()) {
+                Some(id) => got_ids.push(*id),
+                None => return fail(&format!("final:{}:unknown_object", api), format!("{} returned {:#x}, which is not the address of any object with a finalizer registration (expected registrations of objects {:?})", api, a, expect)),
+            }
+        }
+        expect.sort();
+        let mut sorted = got_ids.clone();
+        sorted.sort();
+        if sorted != expect {
+            return fail(
+                &format!("final:{}:wrong_result", api),
+                format!("{}{} returned registrations of objects {:?}; the outstanding registrations are {:?} (every registration exactly once)", api, only.map(|id| format!("(object id {})", id)).unwrap_or_default(), sorted, expect),
+            );
+        }
+        for o in &got {
+            if let Err(m) = check_object(*o) {
+                return fail(&format!("final:{}:corrupt", api), format!("{} returned a damaged object: {}", api, m));
+            }
+        }
+        self.facts.removed += got.len() as u64;
+        // the entries after a removed one shift: does an unscanned registration remain behind
+        // a removed scanned one?
+        let removed_scanned = self.fins.iter().any(|f| only.map(|id| f.id == id).unwrap_or(true) && f.scanned && !f.ready);
+        self.fins.retain(|f| only.map(|id| f.id != id).unwrap_or(false));
+        if removed_scanned && self.fins.iter().any(|f| !f.scanned) {
+            self.facts.removal_hazards += 1;
+            self.hazard_pending = true;
+        }
+        // what nobody holds any more: the first such object goes to the resurrection slot
+        if only.is_none() {
+            let rooted = closure(w, strong_roots(w));
+            if let Some(id) = got_ids.iter().find(|id| !rooted.contains(id)) {
+                w.set_root(0, RESURRECT_SLOT, Some(*id));
+                self.facts.resurrected += 1;
+            }
+        }
+        Ok(())
+    }
+
     /// Failures of the generic graph walk that concern what only C06's mechanisms keep alive.
     fn reclassify(&self, e: Fail) -> Fail {
         let (sig, msg) = e;
@@ -1021,7 +1257,7 @@ fn step(w: &mut World, op: &Op) -> Result<(), Fail> {
             let id = w.root(0, slot as usize).expect("addfin of empty root");
             w.stats.ops += 1;
             mmtk::memory_manager::add_finalizer(w.mmtk, w.obj_ref(id));
-            with_model(|m| m.fins.push(FinReg { id, ready: false }));
+            with_model(|m| m.fins.push(FinReg { id, ready: false, scanned: false }));
         }
         Op::Drop { slot } => w.drop_root(0, slot as usize),
         Op::Write { src, dst } => {
@@ -1033,6 +1269,15 @@ fn step(w: &mut World, op: &Op) -> Result<(), Fail> {
         Op::Pop => {
             w.stats.ops += 1;
             MODEL.with(|m| m.borrow_mut().as_mut().unwrap().pop_all(w, true))?;
+        }
+        Op::GetFinFor { slot } => {
+            let id = w.root(0, slot as usize).expect("get_finalizers_for of empty root");
+            w.stats.ops += 1;
+            MODEL.with(|m| m.borrow_mut().as_mut().unwrap().remove(w, Some(id)))?;
+        }
+        Op::GetAllFin => {
+            w.stats.ops += 1;
+            MODEL.with(|m| m.borrow_mut().as_mut().unwrap().remove(w, None))?;
         }
         Op::Emergency => {
             w.stats.ops += 1;
@@ -1140,15 +1385,30 @@ fn plans() -> Vec<&'static str> {
 
 /// "" = default options; "defrag" (Immix family) = every collection defragments every block, so
 /// that objects move under Immix as well.
+/// "" = the main alphabet; "fintable" = finalizer-table management (get_finalizers_for /
+/// get_all_finalizers, deeper, no reference objects); "...defrag" (Immix family) = the same with
+/// every collection defragmenting every block, so that objects move under Immix as well.
 fn variants(plan: &str) -> Vec<&'static str> {
     if is_immix_family(plan) {
-        vec!["", "defrag"]
+        vec!["", "defrag", "fintable", "fintable-defrag"]
     } else {
-        vec![""]
+        vec!["", "fintable"]
     }
 }
 
-fn depth(plan: &str, t: Tier) -> usize {
+fn depth(plan: &str, variant: &str, t: Tier) -> usize {
+    if is_fintable(variant) {
+        // 2 root slots in quick, 3 in thorough
+        return match (plan, t) {
+            ("MarkCompact", Tier::Quick) => 4,
+            ("PageProtect", Tier::Quick) => 5,
+            (p, Tier::Quick) if is_gen(p) => 7,
+            (_, Tier::Quick) => 6,
+            ("MarkCompact", Tier::Thorough) => 6,
+            ("PageProtect", Tier::Thorough) => 7,
+            (_, Tier::Thorough) => 8,
+        };
+    }
     match (plan, t) {
         // ~35 ms per program
         ("MarkCompact", Tier::Quick) => 3,
@@ -1162,7 +1422,7 @@ fn depth(plan: &str, t: Tier) -> usize {
 
 fn boot(plan: &str, variant: &str) -> BootCfg {
     let mut c = BootCfg::new(plan);
-    if variant == "defrag" {
+    if variant.ends_with("defrag") {
         c.options.push(("immix_always_defrag".into(), "true".into()));
         c.options.push(("immix_defrag_every_block".into(), "true".into()));
     }
@@ -1177,7 +1437,7 @@ fn own_all() -> bool {
     std::env::var("VERIF_OWN_ALL").is_ok()
 }
 
-const RULE: &str = "every program of length <= depth (quick 4, MarkCompact 3; thorough 6, MarkSweep and PageProtect 5, MarkCompact 4) over {alloc 48 B object -> lowest empty root (3 roots); allocref(kind in soft|weak|phantom, referent = root r): 56 B reference object -> lowest empty root, referent word set, then add_{kind}_candidate; addfin(root): add_finalizer (repeatable); drop root; write root.f0 <- root|null through the barrier; GC(normal) [generational plans only: `exhaustive` is ignored by the others]; GC(exhaustive); pop: get_finalized_object until None, first result re-rooted; emergency: an allocation of the whole heap size, which makes MMTk collect until the collection is an emergency collection and then report out-of-memory [after a soft reference exists; not ConcurrentImmix]} that contains an allocref or addfin, plus one level deeper the programs whose last operation is a pop, a normal GC or an emergency and in which a collection follows an addfin (pops that return something, resurrection, un-popped ready objects crossing a collection), per collecting plan (10) and, for the Immix family, also with immix_always_defrag + immix_defrag_every_block; each program is followed by a closing exhaustive GC and a drain (pop until None), programs run back to back on one real MMTK instance with one GC worker. After every collection: SAFETY (all collections) a referent reachable at least as strongly as its reference's level from a strongly reachable reference object is not cleared and (graph walk through the referent word) is the same intact object at its new address; every cleared reference that was reachable is reported to enqueue_references exactly once, nothing else is; a reachable finalizable object is never made ready / returned; every registration is returned at most once; every object kept for finalization and everything it references is intact (graph walk from the finalizable tables); LIVENESS (only a single user-requested stop-the-world collection of the whole heap: every GC of the non-generational plans incl. ConcurrentImmix user GCs, exhaustive GCs of the generational plans; and the emergency batch) weak referent not in R1 cleared, soft referent not in R0 cleared in an emergency collection and retained otherwise, phantom referent not in R2 cleared and kept if only a finalizable keeps it alive, unreachable finalizable ready and returned exactly once. distinct_nontrivial = programs in which a referent died (cleared + enqueued) or a finalizable became ready AND (plans/variants that move objects in these programs) a reference object or retained referent moved";
+const RULE: &str = "every program of length <= depth (quick 4, MarkCompact 3; thorough 6, MarkSweep and PageProtect 5, MarkCompact 4) over {alloc 48 B object -> lowest empty root (3 roots); allocref(kind in soft|weak|phantom, referent = root r): 56 B reference object -> lowest empty root, referent word set, then add_{kind}_candidate; addfin(root): add_finalizer (repeatable); drop root; write root.f0 <- root|null through the barrier; GC(normal) [generational plans only: `exhaustive` is ignored by the others]; GC(exhaustive); pop: get_finalized_object until None, first result re-rooted; emergency: an allocation of the whole heap size, which makes MMTk collect until the collection is an emergency collection and then report out-of-memory [after a soft reference exists; not ConcurrentImmix]} that contains an allocref or addfin, plus one level deeper the programs whose last operation is a pop, a normal GC or an emergency and in which a collection follows an addfin (pops that return something, resurrection, un-popped ready objects crossing a collection), per collecting plan (10) and, for the Immix family, also with immix_always_defrag + immix_defrag_every_block; PLUS the variant `fintable` (own child per plan, and per Immix-family plan with defrag): every program of length <= depth (quick: generational plans 7, others 6, PageProtect 5, MarkCompact 4, 2 roots; thorough: 8, PageProtect 7, MarkCompact 6, 3 roots) over {alloc, addfin(root) (at most 2 per object), drop, GC(normal) [generational], GC(exhaustive), getfinalizersfor(root with a registration) = get_finalizers_for, getallfinalizers = get_all_finalizers (first returned object that no root holds is re-rooted), pop (after a collection with a registration of a dropped object outstanding)} that contains a getfinalizersfor or getallfinalizers; each program is followed by a closing exhaustive GC and a drain (pop until None), programs run back to back on one real MMTK instance with one GC worker. After every collection: SAFETY (all collections) a referent reachable at least as strongly as its reference's level from a strongly reachable reference object is not cleared and (graph walk through the referent word) is the same intact object at its new address; every cleared reference that was reachable is reported to enqueue_references exactly once, nothing else is; a reachable finalizable object is never made ready / returned; every registration is returned at most once; every object kept for finalization and everything it references is intact (graph walk from the finalizable tables); LIVENESS (only a single user-requested stop-the-world collection of the whole heap: every GC of the non-generational plans incl. ConcurrentImmix user GCs, exhaustive GCs of the generational plans; and the emergency batch) weak referent not in R1 cleared, soft referent not in R0 cleared in an emergency collection and retained otherwise, phantom referent not in R2 cleared and kept if only a finalizable keeps it alive, unreachable finalizable ready and returned exactly once; get_finalizers_for / get_all_finalizers return exactly the outstanding registrations (of that object / all), each once, and un-register them, and every registration left in the tables is processed by the following collections like any other (table invariants after every GC; in a single user-requested GC(normal) of a generational plan a finalizable object allocated since the last collection that nothing possibly-live reaches -- roots, soft retention, any object that survived a collection -- must become ready: final:not_ready:young). distinct_nontrivial (fintable variant) = programs in which such a call removed a registration that had been through a collection while a registration made since stayed in the table (the entries behind it shift below the processor's nursery_index) and, on generational plans, the next collection was a GC(normal); distinct_nontrivial (main variant) = programs in which a referent died (cleared + enqueued) or a finalizable became ready AND (plans/variants that move objects in these programs) a reference object or retained referent moved";
 
 struct ChildOut {
     evaluated: u64,
@@ -1196,20 +1456,20 @@ pub fn child(args: &[String]) {
     MODEL.with(|m| *m.borrow_mut() = Some(Model::new(plan)));
     PRE_VERIFY_HOOK.with(|h| h.set(Some(hook)));
     let mut sub = Run::new(ID, tier);
-    let d = depth(plan, tier);
+    let d = depth(plan, variant, tier);
     let label = if variant.is_empty() { plan.to_string() } else { format!("{}/{}", plan, variant) };
     let progs: Vec<Vec<Op>> = if args.get(2).map(|s| s.as_str()) == Some("replay") {
         let p = prog_from_json(&serde_json::from_str::<Value>(&args[4]).unwrap_or(Value::Null));
         if args.get(5).map(|s| s.as_str()) == Some("prefix") {
             let n: usize = args[6].parse().unwrap_or(0);
-            let mut all = enumerate(plan, d.max(p.len()));
+            let mut all = programs(plan, variant, tier, d.max(p.len()));
             all.truncate(n + 1);
             all
         } else {
             vec![p]
         }
     } else {
-        enumerate(plan, d)
+        programs(plan, variant, tier, d)
     };
     let mut states: HashSet<u64> = HashSet::new();
     let mut out = ChildOut { evaluated: 0, nontrivial: 0 };
@@ -1220,6 +1480,7 @@ pub fn child(args: &[String]) {
     let mut died_or_ready_progs: u64 = 0;
     let mut died_or_ready_and_moved: u64 = 0;
     let mut order_dependent_progs: u64 = 0;
+    let mut hazard_progs: u64 = 0;
     let mut sampled: Vec<String> = vec![];
     // debugging aid: C06_TRACE=<file> writes the facts of every program
     let mut trace = std::env::var("C06_TRACE").ok().and_then(|p| std::fs::File::create(p).ok()).map(std::io::BufWriter::new);
@@ -1241,7 +1502,10 @@ pub fn child(args: &[String]) {
                 }
                 if let Some(t) = trace.as_mut() {
                     use std::io::Write;
-                    let _ = writeln!(t, "{} {} ready={} cleared={} retained={} tolerated={} popped={} exact={} inexact={}", i, prog_json(p), f.became_ready, f.cleared, f.soft_retained, f.resurrected_ref_cleared_reachable_referent, f.popped, f.exact_gcs, f.inexact_gcs);
+                    let _ = writeln!(t, "{} {} ready={} cleared={} retained={} tolerated={} popped={} exact={} inexact={} removed={} hazards={}/{}", i, prog_json(p), f.became_ready, f.cleared, f.soft_retained, f.resurrected_ref_cleared_reachable_referent, f.popped, f.exact_gcs, f.inexact_gcs, f.removed, f.removal_hazards, f.hazard_then_nursery_gc);
+                }
+                if if is_gen(plan) { f.hazard_then_nursery_gc > 0 } else { f.removal_hazards > 0 } {
+                    hazard_progs += 1;
                 }
                 if f.cleared + f.became_ready > 0 {
                     died_or_ready_progs += 1;
@@ -1278,6 +1542,11 @@ pub fn child(args: &[String]) {
                     t.inexact_gcs += f.inexact_gcs;
                     t.emergency_batches += f.emergency_batches;
                     t.enqueue_events += f.enqueue_events;
+                    t.removal_calls += f.removal_calls;
+                    t.removed += f.removed;
+                    t.removal_hazards += f.removal_hazards;
+                    t.hazard_then_nursery_gc += f.hazard_then_nursery_gc;
+                    t.young_ready_in_normal_gc += f.young_ready_in_normal_gc;
                     t.resurrected_ref_cleared_reachable_referent += f.resurrected_ref_cleared_reachable_referent;
                 });
                 match catch(|| reset(&mut w)) {
@@ -1305,7 +1574,13 @@ pub fn child(args: &[String]) {
     let t = with_model(|m| m.total.clone());
     // rule for distinct_nontrivial: for a plan/variant in which objects moved at all, a program
     // counts only if something moved in it
-    out.nontrivial = if t.moved > 0 { died_or_ready_and_moved } else { died_or_ready_progs };
+    out.nontrivial = if is_fintable(variant) {
+        hazard_progs
+    } else if t.moved > 0 {
+        died_or_ready_and_moved
+    } else {
+        died_or_ready_progs
+    };
     sub.add("states", states.len() as u64);
     sub.add("transitions", w.stats.ops);
     sub.add("evaluations", out.evaluated);
@@ -1324,13 +1599,20 @@ pub fn child(args: &[String]) {
     sub.add("finalizables_became_ready", t.became_ready);
     sub.add("finalizables_popped", t.popped);
     sub.add("finalizables_resurrected", t.resurrected);
+    sub.add("get_finalizers_for_and_get_all_finalizers_calls", t.removal_calls);
+    sub.add("registrations_returned_by_those_calls", t.removed);
+    sub.add("removals_of_a_scanned_registration_with_an_unscanned_one_left", t.removal_hazards);
+    sub.add("such_removals_followed_by_a_nursery_gc", t.hazard_then_nursery_gc);
+    sub.add("young_unreachable_finalizables_made_ready_by_gc_normal", t.young_ready_in_normal_gc);
     sub.add("reference_or_referent_moves", t.moved);
     sub.add("objects_verified", w.stats.objects_verified);
     sub.add("programs_with_order_dependent_soft_chain_not_counted", order_dependent_progs);
     sub.set("max_depth", d as u64);
-    sub.set("restricted_extra_depth", d as u64 + 1);
+    if !is_fintable(variant) {
+        sub.set("restricted_extra_depth", d as u64 + 1);
+    }
     sub.set("exhaustive", !stopped);
-    sub.set("per_plan", json!({label: {"programs": out.evaluated, "depth": d, "collections": w.stats.gcs, "moves": t.moved, "nontrivial": out.nontrivial, "cleared": t.cleared, "ready": t.became_ready, "emergency": t.emergency_batches}}));
+    sub.set("per_plan", json!({label: {"programs": out.evaluated, "depth": d, "collections": w.stats.gcs, "moves": t.moved, "nontrivial": out.nontrivial, "cleared": t.cleared, "ready": t.became_ready, "emergency": t.emergency_batches, "removal_calls": t.removal_calls, "removal_hazards": t.removal_hazards, "hazard_then_nursery_gc": t.hazard_then_nursery_gc}}));
     emit_child_result(&sub.to_child_json());
 }
 
